@@ -81,7 +81,10 @@ class ifthenelse(Command):
         """Return the operator precedence for the given token"""
         if tok in ['>', '<', '=']:
             return 2
-        if isinstance(tok, (_and, AND, _or, OR, _not, NOT)):
+        # \not is a prefix operator that binds tighter than \and and \or
+        if isinstance(tok, (_not, NOT)):
+            return 1.5
+        if isinstance(tok, (_and, AND, _or, OR)):
             return 1
         return 0
 
@@ -114,9 +117,12 @@ class ifthenelse(Command):
                     postfix.append(stack.pop())
                 stack.pop()  # (
             else:
-                # Handle operators and precedence
-                while stack and self.prec(tok) <= self.prec(stack[-1]):
-                    postfix.append(stack.pop())
+                # Handle operators and precedence.  A prefix operator has
+                # no left operand, so nothing that is pending can be
+                # reduced when it is met.
+                if not isinstance(tok, (_not, NOT)):
+                    while stack and self.prec(tok) <= self.prec(stack[-1]):
+                        postfix.append(stack.pop())
                 stack.append(tok)
         while stack:
             postfix.append(stack.pop())
